@@ -166,6 +166,14 @@ fn check(c: &Case, st: &mut Stats) -> CheckResult {
             let Some(VValue::Quantity(b)) = ctx.verif_raw_global("xx_b") else {
                 return Err(Failure::new("harness", "not a quantity"));
             };
+            if (!b.value.is_finite() || b.value == 0.0) && raw.value.is_finite() && raw.value != 0.0 {
+                // the conversion between the merged extreme unit and the raw unit leaves the
+                // f64 range: the recorded overflow class
+                return Err(Failure::new(
+                    "simplify-overflow",
+                    format!("`{text}` converted back to {} gives {}, the unsimplified value is {}", raw.unit_display, b.value, raw.value),
+                ));
+            }
             if !rel_close(b.value, raw.value, 1e-9) {
                 return Err(Failure::new(
                     "simplify-changes-magnitude",
